@@ -203,14 +203,20 @@ Definition disable_semi_sync_on_slaves (inactive lagging : list host) : prog uni
     e <- disable_semi_sync_on_slave h false ;;
     match e with Some _ => Ret tt | None => opt_enable h ;;; Ret tt end)).
 
-Definition enable_semi_sync_on_slave (h : host) (ss ms : node_state) : prog oerr :=
-  e <- exec_ 1164 h SSemiSetSlave ;;
-  match e with
-  | Some x => Ret (Some x)
-  | None =>
+Definition enable_semi_sync_on_slave (h : host) (ss : option node_state) (ms : node_state) : prog oerr :=
+  (* a host without replica state, or a recorded master without master state, fails to join
+     (the nil checks come before the first statement) *)
+  match ss with
+  | None => Ret (Some EOther)
+  | Some ss =>
       match ns_master_gtid ms, ns_slave ss with
-      | Some mg, Some rs => if slave_ahead (rs_executed rs) mg then restart_replica h else restart_io h
-      | _, _ => Panic 1169
+      | Some mg, Some rs =>
+          e <- exec_ 1164 h SSemiSetSlave ;;
+          match e with
+          | Some x => Ret (Some x)
+          | None => if slave_ahead (rs_executed rs) mg then restart_replica h else restart_io h
+          end
+      | _, _ => Ret (Some EOther)
       end
   end.
 
@@ -229,14 +235,10 @@ Fixpoint enable_loop (env : an_env) (ms : node_state) (l : list host) (w : Z) (a
   match l with
   | [] => Ret (w, active)
   | h :: r =>
-      match assoc h (ae_state env) with
-      | None => Panic 1060
-      | Some ss =>
-          e <- enable_semi_sync_on_slave h ss ms ;;
-          match e with
-          | Some _ => enable_loop env ms r (w - 1) (filter_out active [h])
-          | None => set_default_repl_settings h (ae_master env) ;;; enable_loop env ms r w active
-          end
+      e <- enable_semi_sync_on_slave h (assoc h (ae_state env)) ms ;;
+      match e with
+      | Some _ => enable_loop env ms r (w - 1) (filter_out active [h])
+      | None => set_default_repl_settings h (ae_master env) ;;; enable_loop env ms r w active
       end
   end.
 
